@@ -23,6 +23,7 @@ type StageInput struct {
 	Mode  int    `json:"mode"`  // 0..3 list system/installed/stage/stage -files, 4..7 generate none/gzip/bzip2/xz
 	Sink  string `json:"sink"`  // none full closed limit badcomp
 	Limit int    `json:"limit"` // bytes (multiple of 512) for sink=limit
+	Tail  int    `json:"tail"`  // sink=limit: if > 0 the limit is this many 512-byte blocks before the end of the complete output
 	Files int    `json:"files"` // package files in the build root
 	Size  int    `json:"size"`  // size of each
 }
@@ -130,6 +131,12 @@ func runStageCase(in StageInput) (*common.Case, error) {
 		shell = quote(stageArgs(in, root, "")) + " >&-"
 		sinkTerm = "SAlwaysFail"
 	case "limit":
+		if in.Tail > 0 {
+			in.Limit = (int(size)+511)/512*512 - 512*in.Tail
+			if in.Limit < 0 {
+				in.Limit = 0
+			}
+		}
 		shell = fmt.Sprintf("ulimit -f %d; exec %s", in.Limit/512, quote(stageArgs(in, root, stageTmp+"/out")))
 		sinkTerm = q.App("SLimit", q.N(uint64(in.Limit)))
 	case "badcomp":
@@ -138,7 +145,7 @@ func runStageCase(in StageInput) (*common.Case, error) {
 		for _, n := range []string{"gzip", "bzip2", "xz"} {
 			os.WriteFile(bad+"/"+n, []byte("#!/bin/sh\ncat >/dev/null\nexit 3\n"), 0755)
 		}
-		env = append([]string{"PATH=" + bad + ":" + os.Getenv("PATH")}, env...)
+		env = append(append([]string{}, env...), "PATH="+bad+":"+os.Getenv("PATH")) // the last PATH wins in exec.Cmd.Env
 		shell = quote(stageArgs(in, root, stageTmp+"/out"))
 		sinkTerm = "SBadCompressor"
 	default:
@@ -175,6 +182,12 @@ func genStageInput(r *rng.R) StageInput {
 		if in.Mode >= 5 {
 			in.Limit = 512 * r.Intn(4)
 		}
+		if r.Chance(1, 2) { // the output fails only in its last blocks
+			in.Tail = 1 + r.Intn(4)
+		}
+	}
+	if in.Mode == 4 && r.Chance(1, 2) { // an archive of more than one 64 KiB buffer
+		in.Files, in.Size = 6+r.Intn(6), 20000+r.Intn(30000)
 	}
 	return in
 }
